@@ -4,6 +4,41 @@ import json, os
 HERE = os.path.dirname(os.path.dirname(os.path.abspath(__file__)))
 
 CHECKS = {
+ 'C01': dict(
+   category='model_checking',
+   text="Programs are the complete states of the typed DAG-builder TLA+ machine ExprBuilder (TLC exhaustive for small vocabularies, -simulate beyond, directed families); their meaning is the exact-rational TLA+ semantics ArraySem evaluated by TLC (EvalDag). Each program is built with nutils' raw constructors, simplified under a watchdog and evaluated: shape, dtype, values at three argument assignments must equal the model (S->C). Every rewrite step of the real fixed-point driver is recorded, exported back to DAG JSON and TLC decides with PairVerdict whether the step preserved the value (C->S).",
+   note="Vocabulary: 35 constructors over bool/int/float on shapes up to rank 3 (no transcendental functions, Eig, complex); model-undefined values (division by zero, non-square roots, magnitude cap) are skipped; failing programs are shrunk to an op skeleton that is the known-finding key.",
+   technique="TLA+ typed program-builder state machine + TLA+ reference semantics evaluated by TLC; spec->code replay and TLC validation of recorded rewrite steps"),
+ 'C02': dict(
+   category='model_checking',
+   text="Programs and nested tuples of outputs with shared subterms/loops from the ExprBuilder TLA+ machine are compiled by evaluable.compile under 10-14 configurations (_simplify x _optimize x cache_const_intermediates, stats, maxprocs) and called four times (first-run and rerun paths); returned structure, shapes, dtypes and values are compared with the ArraySem TLA+ model values computed by TLC.",
+   note="S->C only: the generated script is judged by its observable results under every configuration, the CodeGen abstract-machine trace validation of DESIGN.md is not yet implemented; parallel configurations are exercised on a subset in the quick tier (fork is slow in the sandbox).",
+   technique="TLA+ program-builder + TLA+ reference semantics (TLC) as oracle; replay across all compile configurations"),
+ 'C03': dict(
+   category='model_checking',
+   text="CompiledFn.tla models the persistent state of a compiled function (first_run, frozen cached globals, aliasing of returned arrays) and user moves (call with env e, wrong-shape call, overwrite of a returned writable array); TLC checks Pure/CachedFrozen/CacheIntact over all histories up to MaxLen (spec mutant FreezeCached=FALSE must violate) and emits every maximal history; histories are replayed on programs mixing constant and argument-dependent subterms: each call must equal the ArraySem model value and a freshly compiled function, argument arrays must be bit-identical after the call, user writes are really attempted.",
+   note="Histories exhaustive to length 4 (5 thorough) but sampled per program; aliasing is observed through behaviour (writes, reuse of argument objects mutated in place), not through buffer identity.",
+   technique="TLA+ call-history model checked by TLC; TLC-generated histories replayed into real compiled functions with TLA+ model values as oracle"),
+ 'C04': dict(
+   category='model_checking',
+   text="Reference Jacobians are the exact dual-number lifting of the ArraySem TLA+ semantics: TLC evaluates the tangent of the root for a unit seed on every element of every real argument; evaluable.derivative of the same program must have shape root+argument and equal the Jacobian column by column; integer/boolean roots must have zero derivative.",
+   note="Kinks (abs/sign/min/max ties, floor, comparisons) have undefined model tangents and are skipped; transcendental functions and complex differentiation are outside the exact model; second derivatives not yet bound.",
+   technique="TLA+ dual-number reference semantics evaluated by TLC; spec->code replay of generated programs"),
+ 'C05': dict(
+   category='model_checking',
+   text="SparseCheck.tla states every clause of the property (index range, strict lexicographic order, CSR row pointers monotone, columns strictly increasing per row, scatter equals dense) as TLA+ predicates; the real COO (assparse of the simplified expression) and CSR (as_csr) data recorded for ExprBuilder programs are handed to TLC, which computes the dense reference from the ArraySem semantics of the same program and reports the first failing clause.",
+   note="Values are passed as exact rationals (denominator <= 20000), others skipped and counted; loop-dependent block sizes are not in the vocabulary yet (constant chunk sizes only).",
+   technique="recorded sparse data validated by TLC against TLA+ clauses and the TLA+ reference semantics"),
+ 'C06': dict(
+   category='model_checking',
+   text="(a) every node of every ExprBuilder program carries the model typing (shape/dtype, cross-checked against ArraySem inside TLC by the ShapeSound/IxSound invariants); the real node must announce the same ndim/shape/dtype, evaluate to exactly that, and evaluate given only the arguments it announces. (b) IntBounds.tla states soundness of the interval transfer functions per constructor and is checked exhaustively by TLC (spec mutant: naive Inflate rule violates); every integer node of the real code is evaluated at all loop iterations and must lie in its _intbounds.",
+   note="Only soundness of ranges is demanded, never tightness; function.Array level metadata is left to C07.",
+   technique="TLA+ typing rules + TLA+ interval-soundness spec (TLC exhaustive) + replay of generated programs node by node"),
+ 'C14': dict(
+   category='model_checking',
+   text="Solver.tla models System.solve and the Newton/ReuseNewton/LinesearchNewton/Arnoldi/direct protocols and Matrix._solver with residual norms abstracted to IEEE-comparison classes, StepRetry.tla the bisection retry tree of System.step, LinSolve.tla the constrained linear solve in exact rational arithmetic; TLC checks Certified/NoSilent/Tiling/ConsExact/IndepOfGuess; all model behaviours are replayed on the real System.solve/step/Matrix.solve (S->C) and recorded real nonlinear solves are validated by TraceSolver.tla (C->S).",
+   note="Residuals abstracted to six magnitudes; tol=0 demands only finiteness and exact constraints; MKL backend absent; exact arithmetic up to 3x3.",
+   technique="TLA+ solver-protocol models checked by TLC; oracle-sequence replay into the real solver loop and trace validation of real solves"),
  'C18': dict(
    category='model_checking',
    text="TLA+ specs CacheFn/CacheRec of cache.function and cache.Recursion (one action per step of the wrapper, crash between any two bytes of pickle.dump, concurrent callers) are checked exhaustively by TLC for Transparent, MutexCompute, LockHeld, StoredIsTrue, termination; bound to the code by trace validation of real multi-process runs with SIGKILLs (TraceCacheFn/TraceCacheRec) and by realising every model-reachable file state (every byte prefix, junk tails, chimeras) on real cache files.",
